@@ -7,7 +7,7 @@
    The C++ keeps absolute cursors into one growing buffer; the model keeps the
    not-yet-consumed suffix instead (same function, checked by the correspondence run).
    Definitions only. *)
-From IoraVerif Require Export Common.Bytes.
+From IoraVerif Require Export Common.Bytes Common.Search.
 Local Open Scope N_scope.
 
 Definition CR : N := 13.
@@ -30,24 +30,6 @@ Fixpoint list_eqb (a b : list N) : bool :=
   | _, _ => false
   end.
 Definition ci_eqb (a b : list N) : bool := list_eqb (map lower a) (map lower b).
-
-Fixpoint starts_with (pat l : list N) : bool :=
-  match pat, l with
-  | [], _ => true
-  | p :: pat', x :: l' => (p =? x) && starts_with pat' l'
-  | _ :: _, [] => false
-  end.
-
-(* std::string::find(pat): (bytes before the first occurrence, bytes after it) *)
-Fixpoint find_pat (pat l : list N) : option (list N * list N) :=
-  if starts_with pat l then Some ([], skipn (length pat) l)
-  else match l with
-       | [] => None
-       | x :: t => match find_pat pat t with
-                   | Some (b, a) => Some (x :: b, a)
-                   | None => None
-                   end
-       end.
 
 Fixpoint drop_ows (l : list N) : list N :=
   match l with
@@ -223,12 +205,6 @@ Definition determine_framing (method : list N) (r : response) (cap : N) : outcom
     end.
 
 (* ---- advanceChunked on the suffix that starts at st.pos ---- *)
-
-Fixpoint take_while (p : N -> bool) (l : list N) : list N * list N :=
-  match l with
-  | b :: t => if p b then let '(a, r) := take_while p t in (b :: a, r) else ([], l)
-  | [] => ([], [])
-  end.
 
 (* one chunk-size line (without its CRLF): Some size, or None = malformed *)
 Definition chunk_size_line (content : list N) (cap : N) : option N :=
